@@ -519,8 +519,10 @@ func runProgram(r *vh.Runner, c *vh.Case, i int, prog program, realTime bool) {
 					// a watcher records the states of both ends at the moment the
 					// bound (counted from the later Close) expires with the call still open
 					wfcDone := make(chan struct{})
+					watcherExit := make(chan struct{})
 					var snapMine, snapPeer string
 					go func() {
+						defer close(watcherExit)
 						for {
 							select {
 							case <-wfcDone:
@@ -541,6 +543,7 @@ func runProgram(r *vh.Runner, c *vh.Case, i int, prog program, realTime bool) {
 					}()
 					e.tube.WaitForClose()
 					close(wfcDone)
+					<-watcherExit
 					tr.end(cl)
 					// once both ends have called Close, completion may only take the bound
 					e.mu.Lock()
